@@ -52,7 +52,7 @@ for v in variants:
             if not hit:
                 fails += 1
                 lines = [l for l in out.splitlines() if "FAIL" in l or "UNDEC" in l or l.startswith("        ")]
-                print("\n".join(lines[:6]))
+                print("\n".join(l[:300] for l in lines[:6]))
     finally:
         shutil.rmtree(d, ignore_errors=True)
 sys.exit(1 if fails else 0)
